@@ -365,11 +365,18 @@ def run(scenario):
             rule.label = 'busy_peer'
             ip.rules.append(rule)
         cr = scenario.get('crash')
+        # (the clause follows the operation, not the metadata: minimisation may have removed the crash / partition itself)
+        if cr and not any(o_['op'] in ('crash', 'partition') and o_['t'] == cr['t'] for o_ in scenario['ops']):
+            cr = None
         if cr and strict:
             # every kernel SA shared with the dead peer is gone within DPD + retransmission budget (+ ticks + latency in flight)
             how = cr['how']
             survivor = 'B' if cr['victim'] == 'A' else 'A'
             conn = next(iter(configs.read_conf(scenario['nodes'][survivor]['conf']).values()))
+            if how == 'partition':
+                # both survive and both must clean up, each after its own DPD interval: the bound is that of the slower one
+                other = next(iter(configs.read_conf(scenario['nodes'][cr['victim']]['conf']).values()))
+                conn = dict(conn, dpd=max(conn['dpd'], other['dpd']))
             max_lat = max([scenario['fate_policy'].get('lat_range', [0, 0.05])[1]] +
                           ([scenario['fate_policy'].get('long_range', [0, 0])[1]] if scenario['fate_policy'].get('p_long') else []))
             slack_syscalls = 6.0 if how == 'crash_syscall' else 0.0    # the crash happens at the k-th syscall after t
